@@ -161,6 +161,18 @@ Theorem C03_source_comes_before_contains_are_model : forall a0 a1 b0 b1 s,
   Gen.comes_before a0 a1 b0 b1 s = comes_before a0 a1 b0 b1 s /\ Gen.contains a0 a1 b0 b1 s = contains a0 a1 b0 b1 s.
 Proof. intros. split; [apply gen_comes_before|apply gen_contains]. Qed.
 Print Assumptions C03_source_comes_before_contains_are_model.
+(** bounds below -n are resolved as for arrays too (clamped to 0; the unclamped code was defect D33), and a scalar
+    outside [-n, n) on either side is refused *)
+Theorem C03_process_slice_array_semantics : forall start stop nmax, 0 <= nmax ->
+  (forall a, start = Some a -> a <= nmax) -> (forall b, stop = Some b -> b <= nmax) ->
+  process_slice start stop nmax =
+  (match start with None => 0 | Some a => array_bound a nmax end, match stop with None => nmax | Some b => array_bound b nmax end).
+Proof. exact process_slice_array_semantics. Qed.
+Print Assumptions C03_process_slice_array_semantics.
+Theorem C03_process_scalar_refuses : forall s nmax, 0 <= nmax -> (s < - nmax \/ nmax <= s) -> process_scalar s nmax = None.
+Proof. exact process_scalar_refuses. Qed.
+Print Assumptions C03_process_scalar_refuses.
+
 Theorem C03_source_process_slice_is_model : forall start stop s nmax,
   Gen.process_slice start stop nmax = process_slice start stop nmax /\ Gen.process_scalar s nmax = process_scalar s nmax.
 Proof. intros. split; [apply gen_process_slice|apply gen_process_scalar]. Qed.
